@@ -7,7 +7,7 @@
    (3) C10: paragraph independence and agreement of the single-paragraph type.
    The CS statements were tested before any proof effort: StageRel.stage_check evaluates their
    conclusions on every case of the correspondence run (testing, not proof). *)
-From BidiVerif Require Import Base ConstsGen TablesGen ModelText ModelResolve ModelLine Spec Obs Judge StageRel
+From BidiVerif Require Import Base ConstsGen TablesGen UcdRef ModelText RefDs ModelResolve ModelLine Spec Obs Judge StageRel
      Stmts Stmts2 Stmts3 Stmts4 Stmts5.
 From Coq Require Import Permutation.
 
@@ -60,6 +60,9 @@ Definition CS_weak : Prop :=
   forall cps oc sq pc out,
     length pc = length cps -> length oc = length cps -> seq_wf (length cps) sq ->
     bn_exact oc pc sq = true ->
+    (* live positions hold a working class that X9 does not remove (the original class, or L/R from
+       an override); without this the look-ahead of W4 would skip a live position *)
+    Forall (fun c => not_removed_by_x9 c = true) (at_ BN pc (live_idx oc sq)) ->
     resolve_weak U32 cps sq pc = Ok out ->
     at_ BN out (live_idx oc sq) = sq_weak_spec oc pc sq /\
     transparent oc out sq = true.
@@ -69,7 +72,8 @@ Definition CS_neutral : Prop :=
   forall ds cps oc lv sq pc1 out,
     length pc1 = length cps -> length oc = length cps -> length lv = length cps ->
     seq_wf (length cps) sq ->
-    Forall (fun c => c <> BN) (at_ BN pc1 (live_idx oc sq)) ->
+    (* live positions hold what the weak stage leaves: a neutral or isolate class, or L/R/EN/AN *)
+    Forall (fun c => is_ni c = true \/ strong_dir c <> None) (at_ BN pc1 (live_idx oc sq)) ->
     transparent oc pc1 sq = true ->
     resolve_neutral U32 ds cps sq lv oc pc1 = Ok out ->
     at_ BN out (live_idx oc sq) = sq_neutral_spec ds cps oc lv pc1 sq.
@@ -168,3 +172,12 @@ Definition C10_statement : Prop :=
        para_bidi_info_new e ds text d = Ok pb /\
        pb_classes pb = bi_classes b /\ pb_levels pb = bi_levels b /\
        match bi_paras b with [q] => pb_level pb = p_level q | _ => True end).
+
+(* ------------------------------------------------------------------ C14 / C15 against UCD 16.0 *)
+(* for EVERY code point (all of N): the built-in class lookup is the reference table's class, default
+   L; the built-in bracket lookup is the reference list's entry *)
+Definition C14_reference_statement : Prop :=
+  sorted_disjoint ucd16_class_table = true /\
+  forall c : N, hardcoded_class c = ucd16_class c.
+Definition C15_reference_statement : Prop :=
+  forall c : N, hardcoded_bracket c = ucd16_bracket c.
